@@ -540,7 +540,7 @@ def _reference_child(family, tp):
 
 
 def _names_of(inp):
-    names = set(inp.data['Assembly'].keys())
+    names = set(inp.data['Assembly'].keys()) | set(inp.materials.keys())
     names |= set((inp.data.get('Materials') or {}).keys())
     at = inp.data['Setup'].get('AssemblyTables')
     if at:
